@@ -142,6 +142,9 @@ func (d *ioDelegate) TryCache(h hash.Hash, data []byte) (bool, error) {
 			os.Remove(f.Name())
 		}
 		d.cache = f
+		if f != nil {
+			pendingCaches = append(pendingCaches, f)
+		}
 		return false, nil
 	}
 
@@ -166,11 +169,23 @@ func (d *ioDelegate) Close() error {
 	defer d.infile.Close()
 	defer d.outfile.Close()
 
-	if d.cache != nil {
-		if err := d.cache.Close(); err != nil {
-			os.Remove(d.cache.Name())
-		}
-	}
+	// The cache entry is finalised by closeCaches once the outcome of the
+	// command is known: a failed run must not leave a valid entry behind.
 
 	return nil
+}
+
+// pendingCaches holds the cache entries created by this process which have
+// not yet been finalised.
+var pendingCaches []*cache.File
+
+// closeCaches finalises the cache entries written by a command that succeeded
+// and discards those of a command that failed.
+func closeCaches(ok bool) {
+	for _, f := range pendingCaches {
+		if err := f.Close(); err != nil || !ok {
+			os.Remove(f.Name())
+		}
+	}
+	pendingCaches = nil
 }
